@@ -428,6 +428,9 @@ func c18Reconnect(r *vlib.Run) {
 		args := []string{"--cfg", "none", "--noColor", "--trustAllHosts", "--key", keyFile, "--user", "tester",
 			"--logger", "stdout", "--logLevel", "error", "--files", "/var/log/x.log", "--shutdownAfter", "11",
 			"--servers", strings.Join(full, ",")}
+		// the default port (for entries without one) is the unlisted listener's: an entry that loses its ":port" on
+		// the way to a (re)connect shows up there
+		args = append(args, "--port", fmt.Sprint(ports[k]))
 		res := vlib.RunCmd(vlib.Cmd{Path: r.Bin("dtail"), Args: args, Env: []string{"HOME=" + home}, Dir: home})
 		if res.TimedOut {
 			r.Inconclusive("dtail-watchdog")
